@@ -11,4 +11,4 @@ rsync -a --exclude .git /repo/ "$S/t/"
 mkdir -p "$S/v/evidence"; cp /verif/known_findings.json "$S/v/"
 out=$(/verif/bin/imapcheck -repo "$S/t" -verif "$S/v" -property all 2>&1); rc=$?
 echo "RESULT $P: check_rc=$rc $(echo "$out" | grep -E '^== C[0-9]+: (VIOLATION|UNDECIDED|UNRESOLVED)' | awk '{print $2 $3}' | paste -sd' ')"
-echo "$out" | grep -E "^  [a-zA-Z_/.0-9]+\.go:[0-9]+: rule|UNDECIDED|UNRESOLVED|BELOW FLOOR" | sed "s#$S/t/##g" | cut -c1-360 | head -12
+echo "$out" | grep -E "^  ([a-zA-Z_/.0-9]+\.go:[0-9]+|-): rule|UNDECIDED|UNRESOLVED|BELOW FLOOR" | sed "s#$S/t/##g" | cut -c1-360 | head -12
